@@ -285,7 +285,7 @@ def check_world(sc):
     tr = driver.run_world(sc, observe=0, setup=setup)
     out = base_outcome(tr, extra_sig=[name, sc["sim"]["start"][:3]])
     out.viol = pre.viol
-    out.probes = pre.probes
+    out.probes = dict(out.probes, **pre.probes)
     out.probe("world_runs")
     ok = completion(tr, out, "C17", required=False)
     if not ok or out.viol:
